@@ -890,6 +890,65 @@ Section HKProofs.
   Proof. unfold hk_run_forest, hk_run_flat, HK.hk_run. apply sim_loop. apply sim_union. exact sim_new. Qed.
 End HKProofs.
 
+(* ---------- the logging loop is the loop ---------- *)
+Section HKLog.
+  Variables X Y : Type.
+  Variable eqbX : X -> X -> bool.
+  Variable eqbY : Y -> Y -> bool.
+  Variable stepX : X -> nat -> X.
+  Variable stepY : Y -> nat -> Y.
+  Variable finX : X -> bool.
+  Variable finY : Y -> bool.
+  Variable find : uf X Y -> elem X Y -> elem X Y * uf X Y.
+  Variable union : uf X Y -> elem X Y -> elem X Y -> uf X Y.
+  Variable syms : list nat.
+
+  Notation sym := (hk_symbol X Y eqbX eqbY stepX stepY find union).
+  Notation sym_log := (hk_symbol_log X Y eqbX eqbY stepX stepY find union).
+  Notation loop := (hk_loop X Y eqbX eqbY stepX stepY finX finY find union syms).
+  Notation loop_log := (hk_loop_log X Y eqbX eqbY stepX stepY finX finY find union syms).
+
+  Lemma symbol_log_fst qa qb sl a : fst (sym_log qa qb sl a) = sym qa qb (fst sl) a.
+  Proof.
+    unfold hk_symbol_log, hk_symbol. destruct (find (fst (fst sl)) (estep X Y stepX stepY qa a)) as [r1 u1].
+    destruct (find u1 (estep X Y stepX stepY qb a)) as [r2 u2]. destruct (eqbE X Y eqbX eqbY r1 r2); reflexivity.
+  Qed.
+
+  Lemma fold_log_fst qa qb todo : forall sl,
+    fst (fold_left (sym_log qa qb) todo sl) = fold_left (sym qa qb) todo (fst sl).
+  Proof.
+    induction todo as [|a todo IH]; intro sl; simpl; [reflexivity|]. rewrite IH, symbol_log_fst. reflexivity.
+  Qed.
+
+  Lemma loop_log_fst fuel : forall sl, fst (loop_log fuel sl) = loop fuel (fst sl).
+  Proof.
+    induction fuel as [|f IH]; intros [[u [|[qa qb] rest]] log]; simpl; try reflexivity.
+    destruct (xorb _ _); [reflexivity|]. rewrite IH, fold_log_fst. reflexivity.
+  Qed.
+
+  Theorem hk_run_log_fst fuel x0 y0 :
+    fst (hk_run_log X Y eqbX eqbY stepX stepY finX finY find union syms fuel x0 y0) =
+    hk_run X Y eqbX eqbY stepX stepY finX finY find union syms fuel x0 y0.
+  Proof.
+    unfold hk_run_log, hk_run.
+    match goal with |- fst (let (r, log) := loop_log fuel ?sl in _) = _ => pose proof (loop_log_fst fuel sl) as H;
+      destruct (loop_log fuel sl) as [r log] end.
+    simpl in *. exact H.
+  Qed.
+End HKLog.
+
+Theorem hk_eq_log_fst tie syms A B : fst (hk_eq_log tie syms A B) = hk_eq_gen tie syms A B.
+Proof.
+  unfold hk_eq_log, hk_eq_gen, guard_syms. destruct (same_syms A B); [|reflexivity].
+  unfold hk_run_forest_log, hk_run_forest. apply hk_run_log_fst.
+Qed.
+
+Theorem nfa_hk_eq_log_fst tie syms A B : fst (nfa_hk_eq_log tie syms A B) = nfa_hk_eq_gen tie syms A B.
+Proof.
+  unfold nfa_hk_eq_log, nfa_hk_eq_gen. destruct (nsame_syms A B); [|reflexivity].
+  unfold hk_run_forest_log, hk_run_forest. apply hk_run_log_fst.
+Qed.
+
 (* ---------- DFA.__eq__ ---------- *)
 Lemma same_syms_iff A B : same_syms A B = true -> forall a, In a (d_syms A) <-> In a (d_syms B).
 Proof.
